@@ -508,7 +508,10 @@ class expandafter(Command):
         if isinstance(aftertok, Macro):
             expanded = aftertok.invoke(tex)
 
-        expanded = expanded or [aftertok]
+        # An empty expansion is a valid result; only a macro that returns
+        # None (i.e. stands for itself) is put back
+        if expanded is None:
+            expanded = [aftertok]
 
         return [nexttok] + expanded
 
